@@ -498,9 +498,11 @@ type engRow struct {
 	s, t int
 }
 
-// after: part listing, then the read shapes (twice: two random draws of every shape).
+// after: part listing, then the read shapes (after a restart twice: two random draws of every shape).
 func (h *history) after(tag string, restarted bool) {
 	h.indexObs(restarted)
 	h.readChecks(tag)
-	h.readChecks(tag)
+	if restarted {
+		h.readChecks(tag)
+	}
 }
